@@ -1,4 +1,5 @@
 //! Pure-rust H.263 decoder
+#![cfg_attr(kani, recursion_limit = "1024")]
 
 #[macro_use]
 extern crate bitflags;
